@@ -277,6 +277,11 @@ fn main() {
                 &format!("valid be=deque first={:?} second={:?}", f, sd),
                 || format!("(run_ring_valid {} {})", coq_list(&f, |x| coq_f64(*x)), coq_list(&sd, |x| coq_f64(*x))),
                 || observe_valid!(&d));
+            em.case("exact", &format!("part=valid acc=into_titer be=deque len={} wrapped={}{}", len, wrapped, nt0),
+                &format!("into_titer be=deque first={:?} second={:?}", f, sd),
+                || format!("(run_into_titer_ring {} {})", coq_list(&f, |x| coq_f64(*x)), coq_list(&sd, |x| coq_f64(*x))),
+                || { let mut c: Vec<Cell> = d.clone().into_titer().map(Cell::F).collect(); c.push(Cell::Sep);
+                     c.extend(d.clone().into_titer().rev().map(Cell::F)); c });
             let mut d = d;
             em.case("exact", &format!("part=mut be=deque len={} wrapped={}{}", len, wrapped, nt0),
                 &format!("mut be=deque first={:?} second={:?}", f, sd),
@@ -321,6 +326,10 @@ fn main() {
             em.case("exact", &format!("part=valid be=slice len={} nulls={}{}", len, vnulls, nt0), &format!("valid be=slice xs={:?}", xs),
                 || format!("(run_vec_valid {})", xs_coq),
                 || { let b = xs.clone().into_boxed_slice(); let v: &[f64] = &b; observe_valid!(v) });
+            em.case("exact", &format!("part=valid acc=into_titer be=vec len={}{}", len, nt0), &format!("into_titer be=vec xs={:?}", xs),
+                || format!("(run_into_titer {})", xs_coq),
+                || { let mut c: Vec<Cell> = xs.clone().into_titer().map(Cell::F).collect(); c.push(Cell::Sep);
+                     c.extend(xs.clone().into_titer().rev().map(Cell::F)); c });
             em.case("exact", &format!("part=mut be=vec len={}{}", len, nt0), &format!("mut be=vec xs={:?}", xs),
                 || format!("(run_vec_mut {})", xs_coq), || { let mut m = xs.clone(); observe_mut!(&mut m) });
             if len == 3 {
